@@ -865,6 +865,9 @@ fn main() {
             if prop == "C11" && args.engine_enabled("utl") {
                 utl_random(&args, &mut rep, prop, sc(10_000.0, 300_000.0));
             }
+            if prop == "C11" && args.engine_enabled("uth_race") {
+                th_race(&args, &mut rep, prop, sc(300.0, 12_000.0), true, false);
+            }
         }
     }
     let code = rep.finish(&args);
